@@ -48,11 +48,15 @@ func registerCrypto(e *Engine) {
 		return tuple{zeroAddr, makeError(fr, "invalid transaction v, r, s values")}
 	}
 	e.Register(tx+".RecoverPlain", recover)
+	e.Register(e.ModulePath+"/coreV2/check.recoverPlain", recover)
 	// crypto.Ecrecover(hash, sig) -> (pub, err): curve arithmetic is outside the
 	// encoding; the result is an arbitrary outcome (some fixed uncompressed
 	// public key, or an error).  Used by harnesses that run the real bodies of
 	// RecoverPlain / recoverPlain to check the gates in front of the recovery.
 	e.Register(e.ModulePath+"/crypto.Ecrecover", func(fr *frame, a []value) value {
+		if pub, isAbstract := abstractRecover(a[0], a[1]); isAbstract {
+			return tuple{concreteBytes(pub), iface{}}
+		}
 		ok := fr.i.ctx.NewVar("ecrecover.ok", BoolSort)
 		if fr.i.decide(ok) {
 			pub := make([]byte, 65)
